@@ -23,6 +23,7 @@ import (
 	"sort"
 	"strings"
 	"sync"
+	"sync/atomic"
 	"testing"
 	"time"
 
@@ -41,6 +42,10 @@ import (
 )
 
 var ctx = context.Background()
+
+// stopRun is set once a call did not return: the goroutine stays behind and
+// every further case would only wait for the watchdog again.
+var stopRun atomic.Bool
 
 const attrMask = virtual.AttributesMaskSizeBytes | virtual.AttributesMaskLinkCount | virtual.AttributesMaskFileType | virtual.AttributesMaskPermissions | virtual.AttributesMaskChangeID | virtual.AttributesMaskInodeNumber | virtual.AttributesMaskFileHandle
 
@@ -236,6 +241,7 @@ func (w *world) await(c *asyncCall, what string) bool {
 			blockedInRepo = true
 		}
 	}
+	stopRun.Store(true)
 	if blockedInRepo {
 		w.mu.Lock()
 		w.ops = append(w.ops, "goroutine dump:\n"+dump)
@@ -444,12 +450,17 @@ func (w *world) pickEntry() (*mdir, string, *mfile) {
 // mutate runs a content-changing call. If the harness holds frozen readers
 // of the file, the call must block until they are closed.
 func (w *world) mutate(m *mfile, desc string, call func() func()) string {
+	var apply func()
 	if len(m.frozen) == 0 {
-		apply := call()
-		apply()
+		// Must not block; still run under the watchdog so that a
+		// frozen reader leaked by the code under test shows up as a
+		// call that never returns instead of a stuck harness.
+		c := w.async(func() { apply = call() })
+		if w.await(c, desc+" without frozen readers") {
+			apply()
+		}
 		return desc
 	}
-	var apply func()
 	c := w.async(func() { apply = call() })
 	settle()
 	blocked := !c.finished()
@@ -610,19 +621,22 @@ func (w *world) opOpenChild(d *mdir, name string, m *mfile) string {
 		return w.opOpenSelf(m)
 	}
 	truncate := w.rng.IntN(4) == 0
-	var out virtual.Attributes
-	leaf, _, _, s := d.dir.VirtualOpenChild(ctx, comp(name), share, nil, &virtual.OpenExistingOptions{Truncate: truncate}, attrMask, &out)
-	w.logf("open-child %s/%s (f%d) share=%s truncate=%v -> %v", d.name, name, m.id, maskName(share), truncate, s)
-	if s != virtual.StatusOK || leaf != m.leaf {
-		w.violate("status-differs op=open-child expected=OK", fmt.Sprintf("got %v, same leaf %v", s, leaf == m.leaf))
-		return "open"
-	}
-	if truncate {
-		m.content = m.content[:0]
-		m.changed()
-	}
-	m.opens = append(m.opens, share)
-	return "open"
+	return w.mutate(m, "open-child", func() func() {
+		var out virtual.Attributes
+		leaf, _, _, s := d.dir.VirtualOpenChild(ctx, comp(name), share, nil, &virtual.OpenExistingOptions{Truncate: truncate}, attrMask, &out)
+		return func() {
+			w.logf("open-child %s/%s (f%d) share=%s truncate=%v -> %v", d.name, name, m.id, maskName(share), truncate, s)
+			if s != virtual.StatusOK || leaf != m.leaf {
+				w.violate("status-differs op=open-child expected=OK", fmt.Sprintf("got %v, same leaf %v", s, leaf == m.leaf))
+				return
+			}
+			if truncate {
+				m.content = m.content[:0]
+				m.changed()
+			}
+			m.opens = append(m.opens, share)
+		}
+	})
 }
 
 func (w *world) opClose(m *mfile) string {
@@ -1277,11 +1291,11 @@ func TestCheck(t *testing.T) {
 		r.Floor(s, 3)
 	}
 	n := r.Pick(800, 8000)
-	for i := 0; i < n; i++ {
+	for i := 0; i < n && !stopRun.Load(); i++ {
 		runStepped(r, i)
 	}
 	rounds := r.Pick(150, 1500)
-	for i := 0; i < rounds; i++ {
+	for i := 0; i < rounds && !stopRun.Load(); i++ {
 		runStressRound(r, i)
 	}
 }
